@@ -668,6 +668,9 @@ impl FileStateMachine {
                                     }
                                 }
                             } else {
+                                if let Some(ref lease) = self.lease {
+                                    lease.unregister(&key);
+                                }
                                 debug!("Replayed INSERT: key={:?}", key);
                             }
 
@@ -1224,6 +1227,10 @@ impl StateMachine for FileStateMachine {
                                 .as_ref()
                                 .expect("lease always initialized by NodeBuilder");
                             lease.register(key.clone(), *ttl);
+                        } else if let Some(ref lease) = self.lease {
+                            // A write without TTL replaces the key; an earlier TTL must
+                            // not delete the new value.
+                            lease.unregister(key);
                         }
                         results.push(ApplyResult::success(entry.index));
                     }
@@ -1252,6 +1259,9 @@ impl StateMachine for FileStateMachine {
                         });
                         if cas_success {
                             data.insert(key.clone(), (new_value.clone(), entry.term));
+                            if let Some(ref lease) = self.lease {
+                                lease.unregister(key);
+                            }
                         }
                     }
                 }
